@@ -466,12 +466,14 @@ package tor
 //@   props    C18
 
 // run (the torrent's event loop): PARTIAL check -- tracker announces are
-// started only under the switch.
+// started only under the switch (C18); however the loop ends, Done IS closed
+// when run returns (C17: what every blocked API call is waiting for).
 //@ func (*Torrent).run
-//@   requires t != nil && ctx != nil
+//@   requires t != nil && ctx != nil && t.Done != nil && !closed_(t.Done)
 //@   modifies *
-//@   focus    pre:tor.trackerAnnounce.trackersOn
-//@   props    C18
+//@   ensures  [done] closed_(t.Done)
+//@   focus    pre:tor.trackerAnnounce.trackersOn, post:done
+//@   props    C18 C17
 
 // maybeWebseed: PARTIAL check -- a web-seed fetch is only spawned when
 // web-seed use is on (precondition of webseedGR/webseedH).
